@@ -33,6 +33,7 @@ class NF:
         return f"NF({self.nan},{self.val})"
 
 
+ABSTRACT_FP = [False, 0]     # [enabled, counter]: float arithmetic results become fresh values (over-approximation)
 F32 = z3.FPSort(8, 24)
 F64 = z3.FPSort(11, 53)
 RNE = z3.RNE()
@@ -268,6 +269,9 @@ def _arith(a, b, pyop, zop, fpop=None):
         return UNDEF
     if is_fp(a) or is_fp(b):
         a, b = _fp_promote(a, b)
+        if ABSTRACT_FP[0]:
+            ABSTRACT_FP[1] += 1
+            return z3.FP(f"absfp{ABSTRACT_FP[1]}", a.sort())
         return fpop(RNE, a, b)
     if isinstance(a, NF) or isinstance(b, NF):
         return _nf2(lambda x, y: _arith(x, y, pyop, zop), a, b)
